@@ -933,6 +933,10 @@ func (s *Store) monitorLeaseAsPrimary(ctx context.Context, lease Lease) error {
 		}
 
 		log.Printf("set cluster id on %q lease %q", s.Leaser.Type(), clusterID)
+	} else if v != s.ClusterID() {
+		// The cluster ID was checked before the lease was acquired but another
+		// node can have initialized the leaser in the meantime.
+		return fmt.Errorf("%q lease initialized with different cluster id: %s", s.Leaser.Type(), v)
 	}
 
 	// Mark as the primary node while we're in this function.
